@@ -20,6 +20,9 @@ def fn(fam, q, t):
 def world(fam, q, t):
     return ("world", fam, q, t)
 
+# theorem modules shared between properties: the rational-number reading of the Spec predicates
+EXTRA_MODULES = {p: ["Halo.Props.Rational"] for p in ("C01", "C03", "C04", "C05", "C06", "C10", "C12", "C15", "C20")}
+
 WQ, WT = (25, 60), (300, 120)        # world families: (sequences, steps per sequence) quick / thorough
 
 # a divergence on a world step counts against the properties whose obligations that operation kind carries
